@@ -1,6 +1,7 @@
 import Pose.Wire
 import Pose.Driver.Lie
 import Pose.Model.Autograd
+import Pose.Model.AutogradBatch
 /-!
 # Driver ops for C04 (autograd through LieTensor ops)
 
@@ -15,9 +16,13 @@ Request grammar (all numbers are exact `m:e` tokens):
     ENV   := <nleaf> { <kind> <len> num… }      kind := SO3|SE3|RxSO3|Sim3 (group leaf) | V (algebra / Euclidean leaf)
     VEC   := <len> num…
     outkind := SO3|SE3|RxSO3|Sim3|V
+    c04.bcall <eps> <PROG> <BENV> <ncot> VEC…               -- the batched / broadcasting layer (`AutogradBatch.lean`)
+    BENV  := <nleaf> { <kind> <rank> d… <nitems> VEC… }     batch shape and the items (row-major) of every leaf
 
 `c04.grad` replies with the concatenated leaf gradients (storage length each), then the per-leaf sums of
 |contribution| (same layout) and the largest cotangent entry met in the sweep (conditioning information).
+`c04.bcall` replies `<rank> d…` (output batch shape), the outputs of all batch items, then `.grad` of every item of every leaf
+(`err shape` if the batch shapes do not broadcast — the code raises).
 `c04.fd` replies with the `adim` (group leaf) or `len` (vector leaf) numbers
 `d/dt <c, chart(out(t))>` at `t = 0` for the perturbation `Exp(t e_j) @ X` resp. `x + t e_j`.
 -/
@@ -293,6 +298,31 @@ def cotMax (dJ : DJ B) (eps : B) (env : List (List B)) : Prog → List B → B
     let m := if BigF.lt m1 m2 then m2 else m1
     if BigF.lt m a then a else m
 
+
+/-! ### the batched layer -/
+
+def parseVecs : Nat → List String → Except String (List (List B) × List String)
+  | 0, ts => .ok ([], ts)
+  | n + 1, ts => do
+    let (v, r) ← parseVec ts
+    let (vs, r) ← parseVecs n r
+    return (v :: vs, r)
+
+def parseBLeaves : Nat → List String → Except String (List (String × List Nat × List (List B)) × List String)
+  | 0, ts => .ok ([], ts)
+  | n + 1, kind :: rk :: ts => do
+    let rk ← nat rk
+    let (ds, r) ← Wire.take rk ts
+    let ds ← nats ds
+    match r with
+    | ni :: r =>
+      let ni ← nat ni
+      let (vs, r) ← parseVecs ni r
+      let (rest, r) ← parseBLeaves n r
+      return ((kind, ds, vs) :: rest, r)
+    | [] => throw "arity"
+  | _, _ => .error "arity"
+
 def opsC04 : List (String × Handler) := [
   ("c04.eval", fun ts => do
     match ts with
@@ -343,6 +373,35 @@ def opsC04 : List (String × Handler) := [
           let gs := (List.range env.length).map fun l => grad (env.getD l []).length l cs
           acc := List.zipWith (fun a g => List.zipWith (fun x y => x + ci * BigF.abs y) a g) acc gs
       return fmt acc.flatten
+    | [] => throw "arity"),
+  ("c04.bcall", fun ts => do
+    match ts with
+    | e :: rest =>
+      let eps ← num e
+      let (p, r) ← parseProgN rest
+      match r with
+      | nl :: r =>
+        let nl ← nat nl
+        let (lv, r) ← parseBLeaves nl r
+        match r with
+        | nc :: r =>
+          let nc ← nat nc
+          let (cots, r) ← parseVecs nc r
+          if !r.isEmpty then throw "trailing"
+          let lshapes := lv.map (·.2.1)
+          let vals := lv.map (·.2.2)
+          if (List.zip lshapes vals).any (fun sv => numel sv.1 != sv.2.length) then throw "items"
+          match progShape lshapes p with
+          | none => throw "shape"
+          | some bs =>
+            if cots.length != numel bs then throw "cots"
+            if (List.range (numel bs)).any (fun k => !(checkDJ eps (envAt bs lshapes vals k) p)) then throw "contract:dJ"
+            match bcall dJpure eps p lshapes vals cots with
+            | none => throw "shape"
+            | some (bs, outs, gs) =>
+              return fmt ((BigF.ofNat bs.length :: bs.map BigF.ofNat) ++ outs.flatten ++ (gs.map List.flatten).flatten)
+        | [] => throw "arity"
+      | [] => throw "arity"
     | [] => throw "arity"),
   ("c04.fd", fun ts => do
     match ts with
